@@ -6,6 +6,7 @@ The Go harness runs the real code on the same lines; `check` diffs the two strea
 import Driver.Util
 import OAP.Model.Handshake
 import Driver.Meta
+import Driver.Frame
 open OAP Driver
 
 def badOp (line : String) : String := s!"bad-op {line}"
@@ -40,7 +41,7 @@ def dispatch (op : String) (a : Args) : Option String :=
   | "hs.unpack" => opHsUnpack a
   | "hs.ctx" => opHsCtx a
   | "proto.get" => opProtoGet a
-  | _ => (Driver.metaOps.find? (·.1 == op)).bind (fun f => f.2 a)
+  | _ => ((Driver.metaOps ++ Driver.frameOps).find? (·.1 == op)).bind (fun f => f.2 a)
 
 partial def loop (hin : IO.FS.Stream) (hout : IO.FS.Stream) : IO Unit := do
   let line ← hin.getLine
